@@ -143,8 +143,7 @@ def Take (h : Heap α) (num : Int) (s : Slice) : Except Panic (St α) :=
 
 /-- `var res []T; for i := count; i < len(s); i++ { res = append(res, s[i]) }` -/
 def Skip (h : Heap α) (count : Int) (s : Slice) : Except Panic (St α) :=
-  if count < 0 then
-    (if s.len = 0 then .ok (.nil, h) else .error .index)
+  if count < 0 then .error .index    -- first iteration reads `s[count]` (`count < 0 ≤ len(s)` always enters the loop)
   else
     idxLoop (·.2) s (fun _ e st => .ok (appendN g st.2 st.1 [e])) (s.len - count.toNat) count.toNat (.nil, h)
 
